@@ -166,7 +166,15 @@ bool session_interface::load()
 	if(!storage_->load(*this,ar,timeout_in_)) {
 		return false;
 	}
-	load_data(data_,ar);
+	try {
+		load_data(data_,ar);
+	}
+	catch(cppcms_error const &) {
+		// authenticated but malformed session data: drop the session instead of failing every request of this client
+		data_.clear();
+		storage_->clear(*this);
+		return false;
+	}
 	data_copy_=data_;
 	if(is_set("_t"))
 		timeout_val_=get<int>("_t");
